@@ -255,7 +255,7 @@ func main() {
 	h := rt.New()
 	defer h.Close()
 	h.Rule = "first the WHOLE finite table (every felix setting in {absent, 4 values, lower/upper case variants, unknown} x every bgp setting in {no BGPConfiguration, absent, 4 values, case variants, unknown} x 4x4 pool modes), then random cases of 5 ops (incl. fenv: the real EncapsulationCalculator on pools of each class) with random settings (case variants, near misses, 'none', empty, random ASCII); " +
-		"then histories: dnew (Felix start with 2-4 pools of classes i/v/n, mostly supported pairings) + 2-7 dset (a pool changes class; mostly to a class another pool keeps, so Felix does not restart) through the REAL ipip/vxlan/no-encap managers with a recording route table, interleaved with syncer events for BGPConfiguration default (bset = KVNew/KVUpdated with a value / cleared field / unrecognised value, bdel = KVDeleted) fed to the REAL confd client (onUpdates -> updateBGPConfigCache) whose rendered kernel filter gives BIRD's verdict, Felix setting changes (fset = restart) and the node's network_v4 key going away; distinct = distinct op line; non-trivial = pair/pool/dset op"
+		"then histories: dnew (Felix start with 2-4 pools of classes i/v/n (upper case = DISABLED pool that keeps its blocks), mostly supported pairings) + 2-7 dset (a pool changes class; mostly to a class another pool keeps, so Felix does not restart) through the REAL ipip/vxlan/no-encap managers with a recording route table, interleaved with syncer events for BGPConfiguration default (bset = KVNew/KVUpdated with a value / cleared field / unrecognised value, bdel = KVDeleted) fed to the REAL confd client (onUpdates -> updateBGPConfigCache) whose rendered kernel filter gives BIRD's verdict, Felix setting changes (fset = restart) and the node's network_v4 key going away; distinct = distinct op line; non-trivial = pair/pool/dset op"
 	run := func(ops []string, tag string) {
 		h.Case(tag)
 		for _, op := range ops {
@@ -317,6 +317,8 @@ func main() {
 			{"vvin", "dset 0 i", "dset 0 n", "dset 1 n", "dset 2 v"},
 			{"ivn", "dset 0 v", "dset 0 i", "dset 2 i", "dset 1 n"},
 			{"in", "bdel", "fset -", "bset -", "bset " + enc(v3.Enabled), "fset " + enc(v3.Disabled), "bdel", "fset -", "dset 1 i"},
+			{"Ni", "dset 0 n", "dset 0 N", "dset 1 I", "dset 1 n"},
+			{"NNv", "dset 2 V", "dset 0 i", "dset 0 I"},
 			{"ivn", "bset " + enc(v3.Disabled), "fset " + enc(v3.Enabled), "bdel", "fset -", "bset " + enc("bogus"), "dsub 0", "dsub 1"},
 		} {
 			ops := []string{fmt.Sprintf("dnew %s %s %s", pr[0], pr[1], sc[0])}
